@@ -339,6 +339,12 @@ func registerOverrides(e *Engine) {
 	})
 	e.reg(zz+"Symbolic", func(in *interp, fr *frame, a []value) value { return in.ctx.T })
 	e.reg(zz+"AdvanceClock", func(in *interp, fr *frame, a []value) value { in.advanceClock(); return nil })
+	// SetClock pins the ghost clock to a concrete instant (nanoseconds): harnesses whose revision base
+	// comes from a wall-clock engine need concrete revisions (the pending-event ring is indexed by them)
+	e.reg(zz+"SetClock", func(in *interp, fr *frame, a []value) value {
+		in.clock = in.ctx.Resize(term(a[0]), 64, false)
+		return nil
+	})
 	e.reg(zz+"Threads", func(in *interp, fr *frame, a []value) value { return in.mkInt(len(in.sch.threads)) })
 	e.reg(zz+"PanicMessage", func(in *interp, fr *frame, a []value) value {
 		// renders a recovered panic value
